@@ -330,3 +330,84 @@ func VerifC01_Pack() {
 	}
 	vReach("end")
 }
+
+// VerifC01_Streams: the stream tier. Two collections registered on one handler through the
+// REAL startReadChannel / AddCollection (fake streams underneath); K packs per stream with
+// increasing symbolic times are pushed into the streams in an arbitrary interleaving and
+// handled by the real AddCollection goroutines. On the downstream channel the packs of each
+// stream appear in the order they were read, each exactly once, labelled with their own
+// stream, and nothing that was not read appears.
+func VerifC01_Streams() {
+	K := vParam("K", 2)
+	env := rNewHandler(rSrcP, rTgtP)
+	env.h.startReadChannel()
+	ti, _ := GetTSManager().channelTS2.Get(FormatChanKey(rRID, rTgtP))
+	ti.cts, ti.lts = 0, 0
+	for len(ti.targetMsgChan) > 0 {
+		<-ti.targetMsgChan
+	}
+	vch := []string{rSrcP + "_100v0", rSrcP + "_200v0"}
+	ids := []int64{100, 200}
+	names := []string{"coll", "coll2"}
+	for i := range ids {
+		env.h.AddCollection("task-7", &model.SourceCollectionInfo{PChannel: rSrcP, VChannel: vch[i], CollectionID: ids[i]},
+			&model.TargetCollectionInfo{CollectionID: 700 + ids[i], CollectionName: names[i], DatabaseName: "db",
+				PartitionInfo: map[string]int64{"p": 911}, PChannel: rTgtP, VChannel: rTgtP + "_900v0",
+				PartitionBarrierChan: map[int64]*model.OnceWriteChan[*model.BarrierSignal]{}, DroppedPartition: map[int64]struct{}{}})
+	}
+	vQuiesce()
+	sent := [][]string{nil, nil}
+	// the two source streams run on clocks skewed against each other by an arbitrary amount
+	skew := []uint64{vU64("stream0.skew"), vU64("stream1.skew")}
+	vAssume(vAnd(skew[0] < 1<<40, skew[1] < 1<<40))
+	for n := 0; n < 2*K; n++ {
+		s := vChoice("stream", 2)
+		if len(sent[s]) >= K {
+			s = 1 - s
+		}
+		b := skew[s] + uint64(1000*(len(sent[s])+1))
+		e := b + 10
+		id := names[s] + "-" + string(rune('1'+len(sent[s])))
+		pos := rPos(vch[s], id, e)
+		pack := &msgstream.MsgPack{BeginTs: b, EndTs: e, StartPositions: []*msgpb.MsgPosition{rPos(vch[s], id+"-start", b)}, EndPositions: []*msgpb.MsgPosition{pos}}
+		// FULL=0 (quick): only the first pack of a stream may be tick-only and the packs are
+		// handled as they come; FULL=1: every pack may be tick-only, batches of arrivals
+		hasData := true
+		if vParam("FULL", 0) == 1 || len(sent[s]) == 0 {
+			hasData = vBool("pack.hasData")
+		}
+		if hasData {
+			pack.Msgs = append(pack.Msgs, rInsert(ids[s], 11, "p", vch[s], e, rPos(vch[s], id, e), 1))
+		}
+		sent[s] = append(sent[s], id)
+		env.streams.chans[vch[s]] <- pack
+		if vParam("FULL", 0) == 1 && n%2 == 1 && vBool("handledBeforeTheNextArrives") {
+			vQuiesce()
+		}
+	}
+	vQuiesce()
+	got := [][]string{nil, nil}
+	for len(ti.targetMsgChan) > 0 {
+		o := <-ti.targetMsgChan
+		s := 0
+		if o.CollectionID == 200 {
+			s = 1
+		}
+		vAssert(o.CollectionID == ids[s] && o.CollectionName == names[s] && o.PChannelName == rSrcP && o.TaskID == "task-7", "C01.pack-labelled-with-its-own-stream")
+		vAssert(len(o.MsgPack.EndPositions) == 1, "C01.pack-keeps-its-end-position")
+		got[s] = append(got[s], string(o.MsgPack.EndPositions[0].MsgID))
+	}
+	for s := 0; s < 2; s++ {
+		// every emitted pack is one that was read, in reading order, at most once; packs
+		// carrying data are all there (a tick-only pack may be silent)
+		j := 0
+		for _, g := range got[s] {
+			for j < len(sent[s]) && sent[s][j] != g {
+				j++
+			}
+			vAssert(j < len(sent[s]), "C01.packs-of-a-stream-are-handed-over-in-reading-order-without-duplicates")
+			j++
+		}
+	}
+	vReach("end")
+}
